@@ -55,6 +55,19 @@ func c15Ops(base []histOp) []histOp {
 	user := spec.Ptr(spec.Struct([]string{"Name", "Tags", "Boss"}, []*spec.Value{spec.String("Ann"), spec.Slice(spec.PtrTo(spec.T(spec.TString)), spec.Ptr(spec.String("a")), spec.Ptr(spec.String("b"))),
 		spec.Ptr(spec.Struct([]string{"Name"}, []*spec.Value{spec.String("Boss")}))}))
 	dp := (&spec.Data{}).Add("user", user).Add("n", spec.Ptr(spec.Ptr(spec.IntOf(spec.TInt, 5)))).Add("m", spec.Map(spec.T(spec.TAny), []string{"p"}, []*spec.Value{spec.Any(spec.Ptr(spec.Float64(1.5)))}))
+	// outputs of tens of kilobytes (a loop over 600 long strings, through the layout, the component and
+	// the plain page), with data of their own: whatever a render keeps for big outputs is not shared
+	long := func(tag string, n int) *spec.Data {
+		items := make([]*spec.Value, n)
+		for i := range items {
+			items[i] = spec.String(fmt.Sprintf("%s-item-%04d-abcdefghijklmnopqrstuvwxyz", tag, i))
+		}
+		return (&spec.Data{}).Add("name", spec.String(tag+" "+strings.Repeat("n", 40))).Add("items", spec.Slice(spec.T(spec.TString), items...)).Add("flag", spec.Bool(true))
+	}
+	big1, big2 := long("first", 600), long("second", 450)
+	base = append(append([]histOp{}, base...),
+		histOp{Kind: "string", Name: "home", Data: big1}, histOp{Kind: "string", Name: "home", Data: big2}, histOp{Kind: "string", Name: "greet", Data: big1},
+		histOp{Kind: "response", Name: "greet", Data: big2}, histOp{Kind: "string", Name: "dumps", Data: big2}, histOp{Kind: "response", Name: "home", Data: big1})
 	return append(append([]histOp{}, base...),
 		histOp{Kind: "evalstring", Src: "{{ name.shout() }} {{ 21.double() }} @each(i in items){{ i }}@end", Data: d},
 		histOp{Kind: "string", Name: "plain", Data: d},
@@ -109,8 +122,13 @@ func c15Run(p concPlan) string {
 						runtime.Gosched()
 					}
 					oi %= len(cs.Ops)
+					op := cs.Ops[oi]
+					if op.Kind == "evalstring" && (g+k+rep)%2 == 0 {
+						// a source text no call has evaluated before (the comment renders to nothing)
+						op.Src = fmt.Sprintf("{{-- %d.%d.%d --}}", rep, g, k) + op.Src
+					}
 					var got string
-					if pi := harness.Safe(func() { got = h.exec(cs.Ops[oi]) }); pi != nil {
+					if pi := harness.Safe(func() { got = h.exec(op) }); pi != nil {
 						got = "panic: " + pi.Value
 					}
 					if got != base[oi] {
@@ -157,7 +175,7 @@ func c15NonTrivial(p concPlan, nOps int) bool {
 
 func TestC15_Plans(t *testing.T) {
 	c := harness.New(t, "C15", "plans",
-		"concurrency plans: G in 2..16 goroutines, each a list of 5..40 operations from {String ok / failing / not found, Response ok / failing (built-in and custom error page, debug on/off), EvaluateString ok / failing (with registered custom functions), EvaluateFile} over a loaded directory with layout, component, loops and objects, each with its own data map; GOMAXPROCS in {2, 4, 16}; runtime.Gosched() noise at generated points; each plan repeated. Built with the race detector (GORACE=halt_on_error=1): any reported race ends the run and is reported with the plan; every call's result must equal the result of the same call run alone beforehand. Plans are drawn deterministically from the seed (rapid generators, Example-style) because a schedule-dependent failure cannot be shrunk. Non-trivial: >= 2 goroutines of which one performs a failing Response/String and another an EvaluateString/EvaluateFile. Distinct by hash of the plan.")
+		"concurrency plans: G in 2..16 goroutines, each a list of 5..40 operations from {String ok / failing / not found, Response ok / failing (built-in and custom error page, debug on/off), EvaluateString ok / failing (with registered custom functions), EvaluateFile} over a loaded directory with layout, component, loops and objects, each with its own data map (small, with pointers, and two with 600 / 450 long strings whose pages render to tens of kilobytes); every other EvaluateString call evaluates a source text no call has seen before (a unique leading comment); GOMAXPROCS in {2, 4, 16}; runtime.Gosched() noise at generated points; each plan repeated. Built with the race detector (GORACE=halt_on_error=1): any reported race ends the run and is reported with the plan; every call's result must equal the result of the same call run alone beforehand. Plans are drawn deterministically from the seed (rapid generators, Example-style) because a schedule-dependent failure cannot be shrunk. Non-trivial: >= 2 goroutines of which one performs a failing Response/String and another an EvaluateString/EvaluateFile. Distinct by hash of the plan.")
 	defer c.Finish()
 	nOps := len(c15Ops(c16Trees()[0].Ops))
 	gen := rapid.Custom(func(rt *rapid.T) concPlan {
